@@ -36,7 +36,7 @@ def check(run):
             run.clause('every handler goes through the queue (cancel/destroy can reach it); literals never consult the configuration and complete at now()+1us')
         for fl in handlers.flows_in(fx, ar):
             if fl.entity.startswith('param:handler') and fl.kind in ('move', 'exchange'):
-                ok = (fl.dest or '').startswith('pass:' + R + '::result_t::result_t') or (fl.dest or '').startswith('local:res')
+                ok = (fl.dest or '').startswith('pass:' + R + '::result_t::result_t') or (fl.dest or '').startswith('local:res') or (fl.dest or '') == 'slot:' + R + '::m_queue'     # into an entry, or constructed in place in the queue
                 run.check(ok, 'R6', 'handler-through-queue', '%s<%s>: handler -> %s' % (ar.norm, tag, (fl.dest or '').split('::')[-1]), ar.loc(fl.node),
                           'the handler is handed to %s instead of a queue entry: cancel() and the destructor walk only m_queue, so this lookup completes after a cancel' % fl.dest, 'moved into a queue entry')
         if not hl or not inserts or not appends:
